@@ -1,10 +1,12 @@
 (* Loader_proofs.v -- lemmas about the loader model (C16).
 
-   1. scanners: the Makefile scanner panics exactly on the shape excluded by [mk_guard]
-      (refutation witness, guarded no-panic theorem, exactness of the guard); the script scanner
-      never panics; which annotation fields [mk_target] copies and which it drops;
-   2. enrichment: the source file name only flows into the source fields; labels of an
-      enriched package; every target is a function of its own DTO;
+   1. scanners: neither the Makefile scanner nor the script scanner panics, on any input and
+      for any decoder behaviour; the skip of an empty annotation block (the repair of C16-F1)
+      changed the Makefile scanner on the inputs described by [mk_guard] = false only, which
+      are exactly the inputs on which the scanner without the skip could panic; [mk_target]
+      copies every field the annotation schema declares;
+   2. enrichment: the source file name only flows into the source fields; a null list entry
+      is an error; labels of an enriched package; every target is a function of its own DTO;
    3. merging: [load_all] accepts iff all labels of all fragments are pairwise distinct, and
       its result is independent of the arrival order up to the order of targets / aliases
       inside a package; [merge_all] alone is NOT order independent (witness). *)
@@ -101,35 +103,10 @@ Qed.
 
 (* ================================================================== 1. scanners *)
 
-(* ---- the refutation witness: '# @grog' directly followed by the goal line *)
-
-Definition bare_makefile : list str := [lit "# @grog"; lit "foo:"].
-
-Lemma scan_makefile_bare_panics : forall yaml, scan_makefile yaml bare_makefile = Panic.
-Proof. intro yaml. vm_compute. reflexivity. Qed.
-
-Lemma scan_no_panic_refuted :
-  exists lines, forall yaml, scan_makefile yaml lines = Panic.
-Proof. exists bare_makefile. exact scan_makefile_bare_panics. Qed.
-
-Lemma bare_makefile_guard : mk_guard bare_makefile = false.
-Proof. vm_compute. reflexivity. Qed.
-
-(* ---- the guard is sufficient *)
-
-(* what the guard remembers of the scanner state *)
 Definition nonemptyb {A} (l : list A) : bool := match l with [] => false | _ => true end.
 
-Definition abs_state (st : scan_state) : option bool :=
-  match st with
-  | Outside => None
-  | InBlock ann => Some (nonemptyb ann)
-  end.
+(* ---- handleTarget panics on an empty block and on nothing else *)
 
-Lemma abs_state_snoc ann x : abs_state (InBlock (ann ++ [x])) = Some true.
-Proof. cbn [abs_state]. destruct ann; reflexivity. Qed.
-
-(* decode_block on a non-empty block never panics *)
 Lemma decode_block_nonempty yaml ann :
   ann <> [] -> decode_block yaml ann <> HPanic.
 Proof.
@@ -141,7 +118,6 @@ Qed.
 Lemma decode_block_empty yaml : decode_block yaml [] = HPanic.
 Proof. reflexivity. Qed.
 
-(* mk_handle by cases *)
 Lemma mk_handle_empty yaml l : mk_handle yaml [] l = HPanic.
 Proof. reflexivity. Qed.
 
@@ -159,108 +135,28 @@ Proof.
   rewrite Hc. cbn [negb]. discriminate.
 Qed.
 
-Lemma mk_guard_go_sound yaml lines : forall st found acc,
-  mk_guard_go lines (abs_state st) = true ->
+(* ---- the Makefile scanner never panics: the empty block is skipped before handleTarget *)
+
+Lemma mk_scan_no_panic yaml lines : forall st found acc,
   is_panic (mk_scan yaml lines st found acc) = false.
 Proof.
-  induction lines as [|l rest IH]; intros st found acc Hg; [reflexivity|].
+  induction lines as [|l rest IH]; intros st found acc; [reflexivity|].
   cbn [mk_scan]. destruct st as [|ann].
-  - cbn [mk_guard_go abs_state] in Hg.
-    destruct (has_prefix grog_marker (trim_space l)) eqn:Em.
-    + apply (IH (InBlock [])). exact Hg.
-    + apply (IH Outside). exact Hg.
-  - cbn [mk_guard_go abs_state] in Hg.
-    destruct (null (trim_space l)) eqn:En.
-    + apply (IH (InBlock ann)). exact Hg.
-    + destruct (has_prefix [ch_hash] (trim_space l)) eqn:Eh.
-      * apply IH. rewrite abs_state_snoc. exact Hg.
-      * destruct ann as [|a0 ann]; [cbn in Hg; discriminate|].
-        cbn [nonemptyb negb] in Hg.
-        pose proof (mk_handle_nonempty yaml (a0 :: ann) l) as Hh.
-        destruct (mk_handle yaml (a0 :: ann) l) as [|e|td] eqn:Eh2.
-        -- exfalso. apply Hh; [discriminate | reflexivity].
-        -- reflexivity.
-        -- destruct (mem_ch ch_colon (trim_space l)) eqn:Ec.
-           ++ cbn [negb] in Hg. apply (IH Outside). exact Hg.
-           ++ exfalso. exact (mk_handle_no_colon yaml (a0 :: ann) l td Ec Eh2).
+  - destruct (has_prefix grog_marker (trim_space l)); apply IH.
+  - destruct (null (trim_space l)); [apply IH|].
+    destruct (has_prefix [ch_hash] (trim_space l)); [apply IH|].
+    destruct ann as [|a0 ann]; [apply IH|].
+    pose proof (mk_handle_nonempty yaml (a0 :: ann) l) as Hh.
+    destruct (mk_handle yaml (a0 :: ann) l) as [|e|td].
+    + exfalso. apply Hh; [discriminate | reflexivity].
+    + reflexivity.
+    + apply IH.
 Qed.
 
-Theorem scan_no_panic_partial : forall lines,
-  mk_guard lines = true -> forall yaml, is_panic (scan_makefile yaml lines) = false.
-Proof.
-  intros lines Hg yaml. unfold scan_makefile. apply (mk_guard_go_sound yaml lines Outside). exact Hg.
-Qed.
+Theorem scan_no_panic : forall yaml lines, is_panic (scan_makefile yaml lines) = false.
+Proof. intros yaml lines. unfold scan_makefile. apply mk_scan_no_panic. Qed.
 
-(* ---- the guard is exact: with a YAML decoder that accepts every block (the most permissive
-   third-party behaviour) the scanner panics exactly when the guard says no; hence the guard
-   fails iff SOME decoder behaviour leads to the panic.  (A decoder that rejects an earlier
-   block ends the scan with an error before the panicking shape is reached.) *)
-
-Definition total_yaml (yaml : str -> option annot) : Prop := forall s, yaml s <> None.
-
-Lemma mk_handle_total yaml ann l :
-  total_yaml yaml -> ann <> [] ->
-  (mem_ch ch_colon (trim_space l) = true -> exists td, mk_handle yaml ann l = HOk td) /\
-  (mem_ch ch_colon (trim_space l) = false -> mk_handle yaml ann l = HErr ErrNoColon).
-Proof.
-  intros Ht Hne. unfold mk_handle.
-  assert (Hd : exists a, decode_block yaml ann = HOk a).
-  { destruct ann as [|x ann]; [contradiction|]. unfold decode_block.
-    destruct (null (join nl (x :: ann))); [eexists; reflexivity|].
-    destruct (yaml (join nl (x :: ann))) as [a|] eqn:Ey; [eexists; reflexivity|].
-    exfalso. exact (Ht _ Ey). }
-  destruct Hd as [a ->]. split; intro Hc; rewrite Hc; cbn [negb]; [eexists|]; reflexivity.
-Qed.
-
-Lemma mk_guard_go_complete yaml lines : total_yaml yaml -> forall st found acc,
-  mk_guard_go lines (abs_state st) = false ->
-  is_panic (mk_scan yaml lines st found acc) = true.
-Proof.
-  intro Ht. induction lines as [|l rest IH]; intros st found acc Hg; [discriminate|].
-  cbn [mk_scan]. destruct st as [|ann].
-  - cbn [mk_guard_go abs_state] in Hg.
-    destruct (has_prefix grog_marker (trim_space l)) eqn:Em.
-    + apply (IH (InBlock [])). exact Hg.
-    + apply (IH Outside). exact Hg.
-  - cbn [mk_guard_go abs_state] in Hg.
-    destruct (null (trim_space l)) eqn:En.
-    + apply (IH (InBlock ann)). exact Hg.
-    + destruct (has_prefix [ch_hash] (trim_space l)) eqn:Eh.
-      * apply IH. rewrite abs_state_snoc. exact Hg.
-      * destruct ann as [|a0 ann]; [reflexivity|].
-        cbn [nonemptyb negb] in Hg.
-        assert (Hne : a0 :: ann <> []) by discriminate.
-        destruct (mk_handle_total yaml (a0 :: ann) l Ht Hne) as [Hyes Hno].
-        destruct (mem_ch ch_colon (trim_space l)) eqn:Ec.
-        -- destruct (Hyes eq_refl) as [td ->]. cbn [negb] in Hg. apply (IH Outside). exact Hg.
-        -- cbn [negb] in Hg. discriminate.
-Qed.
-
-Theorem mk_guard_exact_total : forall yaml lines,
-  total_yaml yaml ->
-  (is_panic (scan_makefile yaml lines) = true <-> mk_guard lines = false).
-Proof.
-  intros yaml lines Ht. unfold scan_makefile, mk_guard. split; intro H.
-  - destruct (mk_guard_go lines None) eqn:Eg; [|reflexivity].
-    rewrite (mk_guard_go_sound yaml lines Outside false [] Eg) in H. discriminate.
-  - apply (mk_guard_go_complete yaml lines Ht Outside). exact H.
-Qed.
-
-Definition permissive_yaml : str -> option annot := fun _ => Some empty_annot.
-
-Lemma permissive_total : total_yaml permissive_yaml.
-Proof. intros s H. discriminate. Qed.
-
-Theorem mk_guard_exact : forall lines,
-  mk_guard lines = false <-> exists yaml, is_panic (scan_makefile yaml lines) = true.
-Proof.
-  intro lines. split.
-  - intro Hg. exists permissive_yaml. apply (mk_guard_exact_total _ _ permissive_total). exact Hg.
-  - intros [yaml Hp]. destruct (mk_guard lines) eqn:Eg; [|reflexivity].
-    rewrite (scan_no_panic_partial lines Eg yaml) in Hp. discriminate.
-Qed.
-
-(* ---- the script scanner never panics: the empty block is skipped before decode_block *)
+(* ---- the script scanner never panics: same skip *)
 
 Lemma sh_scan_no_panic yaml lines : forall st cur,
   is_panic (sh_scan yaml lines st cur) = false.
@@ -298,16 +194,198 @@ Proof.
   rewrite after_scan_panic. apply script_scan_no_panic.
 Qed.
 
-Theorem makefile_file_no_panic_partial : forall maxlen yaml content,
-  mk_guard (fst (split_lines maxlen content)) = true ->
+Theorem makefile_file_no_panic : forall maxlen yaml content,
   is_panic (scan_makefile_file maxlen yaml content) = false.
 Proof.
   intros maxlen yaml content. unfold scan_makefile_file.
-  destruct (split_lines maxlen content) as [ls long]. cbn [fst]. intro Hg.
-  rewrite after_scan_panic. apply scan_no_panic_partial. exact Hg.
+  destruct (split_lines maxlen content) as [ls long].
+  rewrite after_scan_panic. apply scan_no_panic.
 Qed.
 
-(* ---- annotation fields: what the Makefile loader copies and what it drops *)
+(* ---- the skip changed nothing else.  [mk_scan_noskip] is makefileParser.parse WITHOUT the
+   `if len(annotationLines) == 0 { break }` statement, i.e. the parser as it was when C16-F1 was
+   found (handleTarget called on every block).  It is a definition of this file, not part of the
+   model: it only serves to state what the repair did and did not change. *)
+
+Fixpoint mk_scan_noskip (yaml : str -> option annot) (lines : list str) (st : scan_state)
+         (found : bool) (acc : list target_dto) : scan_result (list target_dto) :=
+  match lines with
+  | [] => ScanOk found (rev acc)
+  | l :: rest =>
+      let t := trim_space l in
+      match st with
+      | Outside =>
+          if has_prefix grog_marker t then mk_scan_noskip yaml rest (InBlock []) true acc
+          else mk_scan_noskip yaml rest Outside found acc
+      | InBlock ann =>
+          if null t then mk_scan_noskip yaml rest st found acc
+          else if has_prefix [ch_hash] t then mk_scan_noskip yaml rest (InBlock (ann ++ [skipn 1 t])) found acc
+          else match mk_handle yaml ann l with
+               | HPanic => Panic
+               | HErr e => ScanErr e
+               | HOk td => mk_scan_noskip yaml rest Outside found (td :: acc)
+               end
+      end
+  end.
+
+Definition scan_makefile_noskip (yaml : str -> option annot) (lines : list str)
+  : scan_result (list target_dto) := mk_scan_noskip yaml lines Outside false [].
+
+(* '# @grog' directly followed by the goal line: the input of C16-F1 *)
+Definition bare_makefile : list str := [lit "# @grog"; lit "foo:"].
+
+Lemma bare_makefile_noskip_panics : forall yaml, scan_makefile_noskip yaml bare_makefile = Panic.
+Proof. intro yaml. vm_compute. reflexivity. Qed.
+
+Lemma bare_makefile_skipped : forall yaml, scan_makefile yaml bare_makefile = ScanOk true [].
+Proof. intro yaml. vm_compute. reflexivity. Qed.
+
+Lemma bare_makefile_guard : mk_guard bare_makefile = false.
+Proof. vm_compute. reflexivity. Qed.
+
+(* wherever the parser without the skip does not panic, the parser with it does the same *)
+Lemma mk_scan_conservative yaml lines : forall st found acc,
+  is_panic (mk_scan_noskip yaml lines st found acc) = false ->
+  mk_scan yaml lines st found acc = mk_scan_noskip yaml lines st found acc.
+Proof.
+  induction lines as [|l rest IH]; intros st found acc Hp; [reflexivity|].
+  cbn [mk_scan mk_scan_noskip] in Hp |- *. destruct st as [|ann].
+  - destruct (has_prefix grog_marker (trim_space l)); apply IH; exact Hp.
+  - destruct (null (trim_space l)); [apply IH; exact Hp|].
+    destruct (has_prefix [ch_hash] (trim_space l)); [apply IH; exact Hp|].
+    destruct ann as [|a0 ann].
+    + rewrite mk_handle_empty in Hp. discriminate Hp.
+    + destruct (mk_handle yaml (a0 :: ann) l) as [|e|td]; [reflexivity | reflexivity |].
+      apply IH. exact Hp.
+Qed.
+
+Theorem scan_fix_conservative : forall yaml lines,
+  is_panic (scan_makefile_noskip yaml lines) = false ->
+  scan_makefile yaml lines = scan_makefile_noskip yaml lines.
+Proof. intros yaml lines. unfold scan_makefile, scan_makefile_noskip. apply mk_scan_conservative. Qed.
+
+(* ---- [mk_guard] describes the inputs concerned: sufficient for "no panic without the skip" *)
+
+(* what the guard remembers of the scanner state *)
+Definition abs_state (st : scan_state) : option bool :=
+  match st with
+  | Outside => None
+  | InBlock ann => Some (nonemptyb ann)
+  end.
+
+Lemma abs_state_snoc ann x : abs_state (InBlock (ann ++ [x])) = Some true.
+Proof. cbn [abs_state]. destruct ann; reflexivity. Qed.
+
+Lemma mk_guard_go_sound yaml lines : forall st found acc,
+  mk_guard_go lines (abs_state st) = true ->
+  is_panic (mk_scan_noskip yaml lines st found acc) = false.
+Proof.
+  induction lines as [|l rest IH]; intros st found acc Hg; [reflexivity|].
+  cbn [mk_scan_noskip]. destruct st as [|ann].
+  - cbn [mk_guard_go abs_state] in Hg.
+    destruct (has_prefix grog_marker (trim_space l)) eqn:Em.
+    + apply (IH (InBlock [])). exact Hg.
+    + apply (IH Outside). exact Hg.
+  - cbn [mk_guard_go abs_state] in Hg.
+    destruct (null (trim_space l)) eqn:En.
+    + apply (IH (InBlock ann)). exact Hg.
+    + destruct (has_prefix [ch_hash] (trim_space l)) eqn:Eh.
+      * apply IH. rewrite abs_state_snoc. exact Hg.
+      * destruct ann as [|a0 ann]; [cbn in Hg; discriminate|].
+        cbn [nonemptyb negb] in Hg.
+        pose proof (mk_handle_nonempty yaml (a0 :: ann) l) as Hh.
+        destruct (mk_handle yaml (a0 :: ann) l) as [|e|td] eqn:Eh2.
+        -- exfalso. apply Hh; [discriminate | reflexivity].
+        -- reflexivity.
+        -- destruct (mem_ch ch_colon (trim_space l)) eqn:Ec.
+           ++ cbn [negb] in Hg. apply (IH Outside). exact Hg.
+           ++ exfalso. exact (mk_handle_no_colon yaml (a0 :: ann) l td Ec Eh2).
+Qed.
+
+Theorem noskip_no_panic_guarded : forall lines,
+  mk_guard lines = true -> forall yaml, is_panic (scan_makefile_noskip yaml lines) = false.
+Proof.
+  intros lines Hg yaml. unfold scan_makefile_noskip.
+  apply (mk_guard_go_sound yaml lines Outside). exact Hg.
+Qed.
+
+(* on every guarded input the two parsers agree, whatever the decoder does *)
+Theorem scan_fix_guarded : forall lines,
+  mk_guard lines = true -> forall yaml, scan_makefile yaml lines = scan_makefile_noskip yaml lines.
+Proof.
+  intros lines Hg yaml. apply scan_fix_conservative. apply noskip_no_panic_guarded. exact Hg.
+Qed.
+
+(* ---- ... and exact: with a YAML decoder that accepts every block (the most permissive
+   third-party behaviour) the parser without the skip panics exactly when the guard says no;
+   hence the guard fails iff SOME decoder behaviour led to the panic.  (A decoder that rejects
+   an earlier block ends the scan with an error before the shape is reached.) *)
+
+Definition total_yaml (yaml : str -> option annot) : Prop := forall s, yaml s <> None.
+
+Lemma mk_handle_total yaml ann l :
+  total_yaml yaml -> ann <> [] ->
+  (mem_ch ch_colon (trim_space l) = true -> exists td, mk_handle yaml ann l = HOk td) /\
+  (mem_ch ch_colon (trim_space l) = false -> mk_handle yaml ann l = HErr ErrNoColon).
+Proof.
+  intros Ht Hne. unfold mk_handle.
+  assert (Hd : exists a, decode_block yaml ann = HOk a).
+  { destruct ann as [|x ann]; [contradiction|]. unfold decode_block.
+    destruct (null (join nl (x :: ann))); [eexists; reflexivity|].
+    destruct (yaml (join nl (x :: ann))) as [a|] eqn:Ey; [eexists; reflexivity|].
+    exfalso. exact (Ht _ Ey). }
+  destruct Hd as [a ->]. split; intro Hc; rewrite Hc; cbn [negb]; [eexists|]; reflexivity.
+Qed.
+
+Lemma mk_guard_go_complete yaml lines : total_yaml yaml -> forall st found acc,
+  mk_guard_go lines (abs_state st) = false ->
+  is_panic (mk_scan_noskip yaml lines st found acc) = true.
+Proof.
+  intro Ht. induction lines as [|l rest IH]; intros st found acc Hg; [discriminate|].
+  cbn [mk_scan_noskip]. destruct st as [|ann].
+  - cbn [mk_guard_go abs_state] in Hg.
+    destruct (has_prefix grog_marker (trim_space l)) eqn:Em.
+    + apply (IH (InBlock [])). exact Hg.
+    + apply (IH Outside). exact Hg.
+  - cbn [mk_guard_go abs_state] in Hg.
+    destruct (null (trim_space l)) eqn:En.
+    + apply (IH (InBlock ann)). exact Hg.
+    + destruct (has_prefix [ch_hash] (trim_space l)) eqn:Eh.
+      * apply IH. rewrite abs_state_snoc. exact Hg.
+      * destruct ann as [|a0 ann]; [reflexivity|].
+        cbn [nonemptyb negb] in Hg.
+        assert (Hne : a0 :: ann <> []) by discriminate.
+        destruct (mk_handle_total yaml (a0 :: ann) l Ht Hne) as [Hyes Hno].
+        destruct (mem_ch ch_colon (trim_space l)) eqn:Ec.
+        -- destruct (Hyes eq_refl) as [td ->]. cbn [negb] in Hg. apply (IH Outside). exact Hg.
+        -- cbn [negb] in Hg. discriminate.
+Qed.
+
+Theorem mk_guard_exact_total : forall yaml lines,
+  total_yaml yaml ->
+  (is_panic (scan_makefile_noskip yaml lines) = true <-> mk_guard lines = false).
+Proof.
+  intros yaml lines Ht. unfold scan_makefile_noskip, mk_guard. split; intro H.
+  - destruct (mk_guard_go lines None) eqn:Eg; [|reflexivity].
+    rewrite (mk_guard_go_sound yaml lines Outside false [] Eg) in H. discriminate.
+  - apply (mk_guard_go_complete yaml lines Ht Outside). exact H.
+Qed.
+
+Definition permissive_yaml : str -> option annot := fun _ => Some empty_annot.
+
+Lemma permissive_total : total_yaml permissive_yaml.
+Proof. intros s H. discriminate. Qed.
+
+Theorem mk_guard_exact : forall lines,
+  mk_guard lines = false <-> exists yaml, is_panic (scan_makefile_noskip yaml lines) = true.
+Proof.
+  intro lines. split.
+  - intro Hg. exists permissive_yaml. apply (mk_guard_exact_total _ _ permissive_total). exact Hg.
+  - intros [yaml Hp]. destruct (mk_guard lines) eqn:Eg; [|reflexivity].
+    rewrite (noskip_no_panic_guarded lines Eg yaml) in Hp. discriminate.
+Qed.
+
+(* ---- annotation fields: everything the schema declares reaches the TargetDTO *)
 
 (* the TargetDTO a BUILD.json / BUILD.yaml with the same settings decodes to (the schema of the
    annotation is a sub-schema of TargetDTO with the same field names) *)
@@ -317,10 +395,34 @@ Definition full_dto (a : annot) (goal : str) : target_dto :=
        (an_deps a) (an_inputs a) [] (an_outputs a) [] [] (an_tags a)
        (an_fingerprint a) (an_platforms a) (an_env a) (an_timeout a).
 
-(* decidable description of "the annotation sets none of the four dropped fields" *)
-Definition no_dropped_fields (a : annot) : bool :=
-  negb (nonemptyb (an_fingerprint a)) && negb (nonemptyb (an_env a)) && null (an_timeout a)
-  && match an_platforms a with None => true | Some _ => false end.
+Theorem makefile_fields : forall a goal, mk_target a goal = full_dto a goal.
+Proof. intros a goal. reflexivity. Qed.
+
+(* the same, field by field: the nine declared annotation fields, none lost, none invented *)
+Theorem makefile_fields_each : forall a goal,
+  let td := mk_target a goal in
+  td_name td = (if null (an_name a) then goal else an_name a) /\
+  td_command td = make_prefix ++ goal /\
+  td_deps td = an_deps a /\ td_inputs td = an_inputs a /\ td_outputs td = an_outputs a /\
+  td_tags td = an_tags a /\ td_fingerprint td = an_fingerprint a /\ td_env td = an_env a /\
+  td_timeout td = an_timeout a /\ td_platforms td = an_platforms a /\
+  td_excludes td = [] /\ td_bin td = [] /\ td_checks td = [].
+Proof. intros a goal. cbn zeta. repeat split; reflexivity. Qed.
+
+Theorem script_fields_kept : forall a file,
+  let td := script_target a file in
+  td_fingerprint td = an_fingerprint a /\ td_env td = an_env a /\
+  td_timeout td = an_timeout a /\ td_platforms td = an_platforms a /\ td_deps td = an_deps a.
+Proof. intros a file. cbn zeta. repeat split; reflexivity. Qed.
+
+(* one annotation, both loaders: the fields the two schemas share arrive identically *)
+Theorem makefile_script_fields_agree : forall a goal file,
+  let m := mk_target a goal in let s := script_target a file in
+  td_deps m = td_deps s /\ td_fingerprint m = td_fingerprint s /\ td_env m = td_env s /\
+  td_timeout m = td_timeout s /\ td_platforms m = td_platforms s.
+Proof. intros a goal file. cbn zeta. repeat split; reflexivity. Qed.
+
+(* ---- concrete instances (non-vacuity): a Makefile whose annotation sets every declared field *)
 
 Definition rich_annot : annot :=
   mkAnnot (lit "t") [lit ":dep"] [lit "a.txt"] [lit "tag"]
@@ -332,60 +434,53 @@ Definition rich_makefile : list str :=
 Definition goal_foo : str := lit "foo".
 Definition script_x : str := lit "x.sh".
 
-Lemma makefile_fields_refuted :
-  exists (a : annot) (lines : list str) (td : target_dto),
-    scan_makefile (fun _ => Some a) lines = ScanOk true [td] /\
-    td = mk_target a goal_foo /\
-    an_fingerprint a <> [] /\ an_env a <> [] /\ an_timeout a <> [] /\ an_platforms a <> None /\
-    td_fingerprint td = [] /\ td_env td = [] /\ td_timeout td = [] /\ td_platforms td = None /\
-    td <> full_dto a goal_foo /\
-    (* the script loader copies the same four declared fields *)
-    td_fingerprint (script_target a script_x) = an_fingerprint a /\
-    td_env (script_target a script_x) = an_env a /\
-    td_timeout (script_target a script_x) = an_timeout a /\
-    td_platforms (script_target a script_x) = an_platforms a.
-Proof.
-  exists rich_annot, rich_makefile, (mk_target rich_annot goal_foo).
-  repeat split; try (vm_compute; reflexivity); try (vm_compute; discriminate).
-Qed.
+(* through the scanner: the four fields that used to be lost (C16-F2) are non-empty in the
+   annotation and arrive in the one target of the file, which is the BUILD.json DTO *)
+Example makefile_fields_nonvacuous :
+  exists td,
+    scan_makefile (fun _ => Some rich_annot) rich_makefile = ScanOk true [td] /\
+    td = full_dto rich_annot goal_foo /\
+    td_fingerprint td = [(lit "k", lit "v")] /\ td_env td = [(lit "E", lit "1")] /\
+    td_timeout td = lit "5s" /\ td_platforms td = Some [lit "linux/amd64"] /\
+    td_fingerprint td = td_fingerprint (script_target rich_annot script_x) /\
+    td_platforms td = td_platforms (script_target rich_annot script_x).
+Proof. eexists. repeat split; vm_compute; reflexivity. Qed.
 
-Theorem makefile_fields_partial : forall a goal,
-  let td := mk_target a goal in
-  td_name td = td_name (full_dto a goal) /\ td_command td = td_command (full_dto a goal) /\
-  td_deps td = an_deps a /\ td_inputs td = an_inputs a /\ td_outputs td = an_outputs a /\
-  td_tags td = an_tags a /\
-  (no_dropped_fields a = true <-> td = full_dto a goal).
-Proof.
-  intros a goal. cbn zeta. repeat (split; [reflexivity|]).
-  unfold no_dropped_fields, mk_target, full_dto.
-  destruct a as [n d i t fp env tmo pl o]; cbn [an_name an_deps an_inputs an_tags an_fingerprint an_env
-    an_timeout an_platforms an_outputs]. split.
-  - intro H. apply andb_true_iff in H as [H Hp]. apply andb_true_iff in H as [H Ht].
-    apply andb_true_iff in H as [Hf He].
-    destruct fp; [|discriminate]. destruct env; [|discriminate]. destruct tmo; [|discriminate].
-    destruct pl; [discriminate|]. reflexivity.
-  - intro H. inversion H. reflexivity.
-Qed.
+(* the no-panic theorem on inputs that exercise every branch: an annotated target, a decoder
+   error, a missing colon, the skipped empty block followed by a real one *)
+Definition skip_then_target : list str :=
+  [lit "# @grog"; lit ""; lit "all:"; lit "# @grog"; lit "# name: t"; lit "foo: dep"].
 
-Theorem script_fields_kept : forall a file,
-  let td := script_target a file in
-  td_fingerprint td = an_fingerprint a /\ td_env td = an_env a /\
-  td_timeout td = an_timeout a /\ td_platforms td = an_platforms a /\ td_deps td = an_deps a.
-Proof. intros a file. cbn zeta. repeat split; reflexivity. Qed.
+Example scan_no_panic_nonvacuous :
+  scan_makefile (fun _ => Some rich_annot) rich_makefile = ScanOk true [mk_target rich_annot (lit "foo")] /\
+  scan_makefile (fun _ => None) rich_makefile = ScanErr ErrYaml /\
+  scan_makefile (fun _ => Some rich_annot) [lit "# @grog"; lit "# name: t"; lit "foo"] = ScanErr ErrNoColon /\
+  scan_makefile (fun _ => Some rich_annot) skip_then_target = ScanOk true [mk_target rich_annot (lit "foo")] /\
+  mk_guard skip_then_target = false /\
+  scan_makefile_noskip (fun _ => Some rich_annot) skip_then_target = Panic.
+Proof. repeat split; vm_compute; reflexivity. Qed.
 
-(* ---- non-vacuity of the guarded theorem: a guarded, non-trivial Makefile that loads *)
+(* the conservativity theorems: a guarded, non-trivial Makefile on which both parsers load the target *)
 Example guard_nonvacuous :
   mk_guard rich_makefile = true /\
-  scan_makefile (fun _ => Some rich_annot) rich_makefile = ScanOk true [mk_target rich_annot (lit "foo")] /\
-  is_panic (scan_makefile (fun _ => None) rich_makefile) = false.
+  scan_makefile_noskip (fun _ => Some rich_annot) rich_makefile = ScanOk true [mk_target rich_annot (lit "foo")] /\
+  scan_makefile (fun _ => Some rich_annot) rich_makefile
+  = scan_makefile_noskip (fun _ => Some rich_annot) rich_makefile.
 Proof. repeat split; vm_compute; reflexivity. Qed.
 
 Example script_scan_nonvacuous :
   scan_script (fun _ => Some rich_annot) (lit "x.sh") [lit "#!/bin/sh"; lit "# @grog"; lit "# name: t"; lit "echo hi"]
   = ScanOk true (script_target rich_annot (lit "x.sh")) /\
-  (* the bare block that panics the Makefile scanner is skipped by the script scanner *)
+  (* the bare block is skipped by the script scanner as well *)
   scan_script (fun _ => None) (lit "x.sh") bare_makefile = ScanOk true (script_target empty_annot (lit "x.sh")).
 Proof. split; vm_compute; reflexivity. Qed.
+
+(* the exactness theorem with a total decoder: its hypothesis is inhabited and both sides occur *)
+Example guard_exact_nonvacuous :
+  total_yaml permissive_yaml /\
+  is_panic (scan_makefile_noskip permissive_yaml bare_makefile) = true /\ mk_guard bare_makefile = false /\
+  is_panic (scan_makefile_noskip permissive_yaml rich_makefile) = false /\ mk_guard rich_makefile = true.
+Proof. split; [exact permissive_total|]. repeat split; vm_compute; reflexivity. Qed.
 
 (* ================================================================== 2. enrichment *)
 
@@ -404,6 +499,24 @@ Definition package_with_source (s : str) (p : package) : package :=
   mkPkg (p_path p) (map (target_with_source s) (p_targets p)) (map (alias_with_source s) (p_aliases p)).
 Definition dto_with_source (s : str) (d : package_dto) : package_dto :=
   mkPD s (pd_targets d) (pd_aliases d) (pd_default_platforms d).
+
+(* the non-nil elements of a slice of pointers, in order *)
+Fixpoint somes {A} (l : list (option A)) : list A :=
+  match l with
+  | [] => []
+  | Some x :: l' => x :: somes l'
+  | None :: l' => somes l'
+  end.
+
+Lemma somes_map_Some {A} (l : list A) : somes (map Some l) = l.
+Proof. induction l as [|x l IH]; [reflexivity|]. cbn [map somes]. rewrite IH. reflexivity. Qed.
+
+Lemma no_None_map_Some {A} (l : list (option A)) : ~ In None l -> l = map Some (somes l).
+Proof.
+  induction l as [|[x|] l IH]; intro H; [reflexivity | |].
+  - cbn [somes map]. rewrite <- IH; [reflexivity|]. intro Hi. apply H. right. exact Hi.
+  - exfalso. apply H. left. reflexivity.
+Qed.
 
 Lemma norm_path_idem p : norm_path (norm_path p) = norm_path p.
 Proof. unfold norm_path. destruct (str_eqb p dot) eqn:E; [reflexivity | rewrite E; reflexivity]. Qed.
@@ -473,25 +586,27 @@ Section EnrichFacts.
     enrich_targets glob dur src path dp tds (map (target_with_source src) acc0) =
     map_result (map (target_with_source src)) (enrich_targets glob dur src0 path dp tds acc0).
   Proof.
-    induction tds as [|td tds IH]; intro acc0; cbn [enrich_targets map_result].
+    induction tds as [|[td|] tds IH]; intro acc0; cbn [enrich_targets map_result].
     - rewrite map_rev. reflexivity.
     - rewrite labels_with_source.
       rewrite (enrich_target_source src src0 path dp (map t_label acc0) td).
       destruct (enrich_target glob dur src0 path dp (map t_label acc0) td) as [t0|e];
         cbn [map_result]; [|reflexivity].
       apply (IH (t0 :: acc0)).
+    - reflexivity.
   Qed.
 
   Lemma enrich_aliases_source src src0 path tl ads : forall acc0,
     enrich_aliases src path tl ads (map (alias_with_source src) acc0) =
     map_result (map (alias_with_source src)) (enrich_aliases src0 path tl ads acc0).
   Proof.
-    induction ads as [|ad ads IH]; intro acc0; cbn [enrich_aliases map_result].
+    induction ads as [|[ad|] ads IH]; intro acc0; cbn [enrich_aliases map_result].
     - rewrite map_rev. reflexivity.
     - destruct (parse_label path (ad_actual ad)) as [actual|]; [|reflexivity].
       rewrite alabels_with_source.
       destruct (label_in _ tl || label_in _ (map a_label acc0)); [reflexivity|].
       apply (IH (mkAlias _ src0 actual :: acc0)).
+    - reflexivity.
   Qed.
 
   Theorem enrich_source_only : forall path d s,
@@ -510,16 +625,112 @@ Section EnrichFacts.
       cbn [map_result]; reflexivity.
   Qed.
 
+  (* ---- a null list entry is an error (C16-F4 repaired), never a package *)
+
+  Lemma enrich_targets_app src path dp l1 l2 : forall acc,
+    enrich_targets glob dur src path dp (l1 ++ l2) acc =
+    match enrich_targets glob dur src path dp l1 acc with
+    | Err e => Err e
+    | Ok ts => enrich_targets glob dur src path dp l2 (rev ts)
+    end.
+  Proof.
+    induction l1 as [|[td|] l1 IH]; intro acc; cbn [app enrich_targets].
+    - rewrite rev_involutive. reflexivity.
+    - destruct (enrich_target glob dur src path dp (map t_label acc) td) as [t|e]; [apply IH | reflexivity].
+    - reflexivity.
+  Qed.
+
+  Lemma enrich_aliases_app src path tl l1 l2 : forall acc,
+    enrich_aliases src path tl (l1 ++ l2) acc =
+    match enrich_aliases src path tl l1 acc with
+    | Err e => Err e
+    | Ok als => enrich_aliases src path tl l2 (rev als)
+    end.
+  Proof.
+    induction l1 as [|[ad|] l1 IH]; intro acc; cbn [app enrich_aliases].
+    - rewrite rev_involutive. reflexivity.
+    - destruct (parse_label path (ad_actual ad)) as [actual|]; [|reflexivity].
+      destruct (label_in _ tl || label_in _ (map a_label acc)); [reflexivity | apply IH].
+    - reflexivity.
+  Qed.
+
+  (* the entries before the first null one are examined first (their errors win); if they are
+     fine, the null entry is reported, whatever follows it *)
+  Theorem enrich_null_target : forall path d before after,
+    pd_targets d = before ++ None :: after ->
+    enrich glob dur path d =
+    match enrich_targets glob dur (pd_source d) path (pd_default_platforms d) before [] with
+    | Err e => Err e
+    | Ok _ => Err ENullTarget
+    end.
+  Proof.
+    intros path d before after Hd. unfold enrich. rewrite Hd, enrich_targets_app.
+    destruct (enrich_targets glob dur (pd_source d) path (pd_default_platforms d) before []) as [ts|e];
+      reflexivity.
+  Qed.
+
+  Theorem enrich_null_alias : forall path d ts before after,
+    enrich_targets glob dur (pd_source d) path (pd_default_platforms d) (pd_targets d) [] = Ok ts ->
+    pd_aliases d = before ++ None :: after ->
+    enrich glob dur path d =
+    match enrich_aliases (pd_source d) path (map t_label ts) before [] with
+    | Err e => Err e
+    | Ok _ => Err ENullAlias
+    end.
+  Proof.
+    intros path d ts before after Ht Hd. unfold enrich. rewrite Ht, Hd, enrich_aliases_app.
+    destruct (enrich_aliases (pd_source d) path (map t_label ts) before []) as [als|e]; reflexivity.
+  Qed.
+
+  Lemma enrich_targets_no_null src path dp tds : forall acc ts,
+    enrich_targets glob dur src path dp tds acc = Ok ts -> ~ In None tds.
+  Proof.
+    induction tds as [|[td|] tds IH]; intros acc ts H; cbn [enrich_targets] in H.
+    - intros [].
+    - destruct (enrich_target glob dur src path dp (map t_label acc) td) as [t|e]; [|discriminate].
+      intros [Hx|Hx]; [discriminate | exact (IH _ _ H Hx)].
+    - discriminate.
+  Qed.
+
+  Lemma enrich_aliases_no_null src path tl ads : forall acc als,
+    enrich_aliases src path tl ads acc = Ok als -> ~ In None ads.
+  Proof.
+    induction ads as [|[ad|] ads IH]; intros acc als H; cbn [enrich_aliases] in H.
+    - intros [].
+    - destruct (parse_label path (ad_actual ad)) as [actual|]; [|discriminate].
+      destruct (label_in _ tl || label_in _ (map a_label acc)); [discriminate|].
+      intros [Hx|Hx]; [discriminate | exact (IH _ _ H Hx)].
+    - discriminate.
+  Qed.
+
+  Theorem enrich_ok_no_null : forall path d p,
+    enrich glob dur path d = Ok p -> ~ In None (pd_targets d) /\ ~ In None (pd_aliases d).
+  Proof.
+    intros path d p H. unfold enrich in H.
+    destruct (enrich_targets glob dur (pd_source d) path (pd_default_platforms d) (pd_targets d) [])
+      as [ts|e] eqn:Et; [|discriminate].
+    destruct (enrich_aliases (pd_source d) path (map t_label ts) (pd_aliases d) []) as [als|e] eqn:Ea;
+      [|discriminate].
+    split; [exact (enrich_targets_no_null _ _ _ _ _ _ Et) | exact (enrich_aliases_no_null _ _ _ _ _ _ Ea)].
+  Qed.
+
+  Theorem enrich_null_entry_error : forall path d,
+    In None (pd_targets d) \/ In None (pd_aliases d) -> exists e, enrich glob dur path d = Err e.
+  Proof.
+    intros path d H. destruct (enrich glob dur path d) as [p|e] eqn:E; [|exists e; reflexivity].
+    exfalso. destruct (enrich_ok_no_null _ _ _ E) as [H1 H2]. destruct H as [H|H]; [exact (H1 H) | exact (H2 H)].
+  Qed.
+
   (* ---- labels of an enriched package *)
 
   Lemma enrich_targets_labels src path dp tds : forall acc ts,
     enrich_targets glob dur src path dp tds acc = Ok ts ->
-    map t_label ts = rev (map t_label acc) ++ map (tlabel path) tds /\
+    map t_label ts = rev (map t_label acc) ++ map (tlabel path) (somes tds) /\
     (NoDup (map t_label acc) -> NoDup (map t_label ts)) /\
     exists ts', ts = rev acc ++ ts' /\
-                Forall2 (fun td t => enrich_target glob dur src path dp [] td = Ok t) tds ts'.
+                Forall2 (fun td t => enrich_target glob dur src path dp [] td = Ok t) (somes tds) ts'.
   Proof.
-    induction tds as [|td tds IH]; intros acc ts H; cbn [enrich_targets] in H.
+    induction tds as [|[td|] tds IH]; intros acc ts H; cbn [enrich_targets] in H; [| |discriminate].
     - inversion H; subst. rewrite map_rev. cbn [map]. rewrite app_nil_r. split; [reflexivity|]. split.
       + intro Hn. apply NoDup_rev. exact Hn.
       + exists []. rewrite app_nil_r. split; [reflexivity | constructor].
@@ -527,7 +738,7 @@ Section EnrichFacts.
       pose proof (enrich_target_label _ _ _ _ _ _ Et) as Hl.
       destruct (enrich_target_ok_inv _ _ _ _ _ _ Et) as [Hfresh Hpure].
       destruct (IH (t :: acc) ts H) as [Hm [Hn [ts' [Hts Hf]]]].
-      cbn [map rev] in Hm. rewrite Hl in Hm. rewrite <- app_assoc in Hm. cbn [app] in Hm.
+      cbn [somes]. cbn [map rev] in Hm |- *. rewrite Hl in Hm. rewrite <- app_assoc in Hm. cbn [app] in Hm.
       split; [exact Hm|]. split.
       + intro Hacc. apply Hn. cbn [map]. constructor; [|exact Hacc].
         rewrite Hl. apply label_in_false. exact Hfresh.
@@ -538,11 +749,11 @@ Section EnrichFacts.
 
   Lemma enrich_aliases_labels src path tl ads : forall acc als,
     enrich_aliases src path tl ads acc = Ok als ->
-    map a_label als = rev (map a_label acc) ++ map (alabel path) ads /\
+    map a_label als = rev (map a_label acc) ++ map (alabel path) (somes ads) /\
     (NoDup (map a_label acc) -> (forall x, In x (map a_label acc) -> ~ In x tl) ->
      NoDup (map a_label als) /\ (forall x, In x (map a_label als) -> ~ In x tl)).
   Proof.
-    induction ads as [|ad ads IH]; intros acc als H; cbn [enrich_aliases] in H.
+    induction ads as [|[ad|] ads IH]; intros acc als H; cbn [enrich_aliases] in H; [| |discriminate].
     - inversion H; subst. rewrite map_rev. cbn [map]. rewrite app_nil_r. split; [reflexivity|].
       intros Hn Hd. split; [apply NoDup_rev; exact Hn|].
       intros x Hx. apply Hd. apply in_rev. exact Hx.
@@ -550,7 +761,7 @@ Section EnrichFacts.
       destruct (label_in (mkLabel (norm_path path) (ad_name ad)) tl) eqn:E1; [discriminate|].
       destruct (label_in (mkLabel (norm_path path) (ad_name ad)) (map a_label acc)) eqn:E2; [discriminate|].
       cbn [orb] in H. destruct (IH _ als H) as [Hm Hn].
-      cbn [map rev a_label] in Hm. rewrite <- app_assoc in Hm. cbn [app] in Hm.
+      cbn [somes]. cbn [map rev a_label] in Hm |- *. rewrite <- app_assoc in Hm. cbn [app] in Hm.
       split; [exact Hm|]. intros Hacc Hd. apply Hn.
       + cbn [map a_label]. constructor; [apply label_in_false; exact E2 | exact Hacc].
       + intros x [Hx|Hx].
@@ -560,8 +771,8 @@ Section EnrichFacts.
 
   Theorem enrich_labels : forall path d p,
     enrich glob dur path d = Ok p ->
-    map t_label (p_targets p) = map (tlabel path) (pd_targets d) /\
-    map a_label (p_aliases p) = map (alabel path) (pd_aliases d) /\
+    map t_label (p_targets p) = map (tlabel path) (somes (pd_targets d)) /\
+    map a_label (p_aliases p) = map (alabel path) (somes (pd_aliases d)) /\
     NoDup (pkg_labels p) /\
     pkey p = norm_path path.
   Proof.
@@ -588,7 +799,7 @@ Section EnrichFacts.
   Theorem enrich_targets_pointwise : forall path d p,
     enrich glob dur path d = Ok p ->
     Forall2 (fun td t => enrich_target glob dur (pd_source d) path (pd_default_platforms d) [] td = Ok t)
-            (pd_targets d) (p_targets p).
+            (somes (pd_targets d)) (p_targets p).
   Proof.
     intros path d p H. unfold enrich in H.
     destruct (enrich_targets glob dur (pd_source d) path (pd_default_platforms d) (pd_targets d) [])
@@ -603,13 +814,13 @@ End EnrichFacts.
 (* non-vacuity: a package that enriches, with concrete oracles *)
 Definition demo_glob : str -> option (list str) := fun p => Some [p ++ lit ".1"; p ++ lit ".2"].
 Definition demo_dur : str -> option str := fun s => if str_eqb s (lit "5s") then Some (lit "5000000000") else None.
-Definition demo_dto : package_dto :=
-  mkPD (lit "pkg/BUILD.json")
+Definition demo_targets : list target_dto :=
        [mkTD (lit "a") (lit "echo a") [lit ":b"; lit "//x/y:z"] [lit "*.txt"; lit "lit.c"] [lit "skip*"]
              [lit "out.txt"; lit "dir::dist"] (lit "bin/a") [(lit "c", lit "e")] [lit "tag"]
              [(lit "k", lit "v")] None [(lit "E", lit "1")] (lit "5s");
-        mkTD (lit "b") (lit "echo b") [] [] [] [] [] [] [] [] (Some [lit "linux/amd64"]) [] []]
-       [mkAD (lit "al") (lit ":a")]
+        mkTD (lit "b") (lit "echo b") [] [] [] [] [] [] [] [] (Some [lit "linux/amd64"]) [] []].
+Definition demo_dto : package_dto :=
+  mkPD (lit "pkg/BUILD.json") (map Some demo_targets) [Some (mkAD (lit "al") (lit ":a"))]
        (Some [lit "darwin/arm64"]).
 
 Example enrich_nonvacuous :
@@ -622,8 +833,28 @@ Proof. eexists. repeat split; vm_compute; reflexivity. Qed.
 
 Example enrich_duplicate_rejected :
   enrich demo_glob demo_dur (lit "pkg")
-         (mkPD [] (pd_targets demo_dto) [mkAD (lit "a") (lit ":b")] None) = Err EDuplicate.
+         (mkPD [] (pd_targets demo_dto) [Some (mkAD (lit "a") (lit ":b"))] None) = Err EDuplicate.
 Proof. vm_compute. reflexivity. Qed.
+
+(* null entries: {"targets": [null]}, "aliases:" / "- ~", a null entry after good ones, and a
+   bad entry BEFORE the null one (its error is the one reported, as in the Go loop) *)
+Definition bad_dep_target : target_dto :=
+  mkTD (lit "c") (lit "echo c") [lit "nolabel"] [] [] [] [] [] [] [] None [] [].
+
+Example enrich_null_entries :
+  enrich demo_glob demo_dur (lit "pkg") (mkPD (lit "pkg/BUILD.json") [None] [] None) = Err ENullTarget /\
+  enrich demo_glob demo_dur (lit "pkg") (mkPD (lit "pkg/BUILD.yaml") [] [None] None) = Err ENullAlias /\
+  enrich demo_glob demo_dur (lit "pkg")
+         (mkPD [] (pd_targets demo_dto ++ [None]) (pd_aliases demo_dto) None) = Err ENullTarget /\
+  enrich demo_glob demo_dur (lit "pkg")
+         (mkPD [] (pd_targets demo_dto) (pd_aliases demo_dto ++ [None; None]) None) = Err ENullAlias /\
+  enrich demo_glob demo_dur (lit "pkg")
+         (mkPD [] [Some bad_dep_target; None] [None] None) = Err ELabel /\
+  (exists e, enrich demo_glob demo_dur (lit "pkg") (mkPD [] [None; Some bad_dep_target] [] None) = Err e).
+Proof.
+  repeat split; try (vm_compute; reflexivity).
+  apply enrich_null_entry_error. left. left. reflexivity.
+Qed.
 
 (* ================================================================== 3. merging *)
 
